@@ -222,4 +222,6 @@ def run(ctx):
     r17_1(ctx)
     r17_2(ctx)
     r17_4(ctx)
+    from . import c05
+    c05.r5_5(ctx)
     ctx.note("R17.3 validate-before-mutate for create/delete/rename is decided by C05 R5.5")
